@@ -65,6 +65,37 @@ typedef struct
 
 PIXMAN_DEFINE_THREAD_LOCAL (cache_t, fast_path_cache)
 
+#ifdef PIXMAN_VERIF
+/* Verification hooks, compiled only with -DPIXMAN_VERIF (never by the
+ * normal build): which level of the implementation chain (0 = toplevel)
+ * and which function the last composite lookup on this thread resolved
+ * to, and how long the chain is.  Read-only instrumentation.
+ */
+#ifdef TLS
+TLS
+#endif
+struct
+{
+    int           depth;
+    void *        func;
+    unsigned long count;
+} pixman_verif_last_lookup;
+
+int
+pixman_verif_chain_length (pixman_implementation_t *toplevel)
+{
+    int n = 0;
+
+    while (toplevel)
+    {
+	n++;
+	toplevel = toplevel->fallback;
+    }
+
+    return n;
+}
+#endif
+
 static void
 dummy_composite_rect (pixman_implementation_t *imp,
 		      pixman_composite_info_t *info)
@@ -162,6 +193,19 @@ _pixman_implementation_lookup_composite (pixman_implementation_t  *toplevel,
     return;
 
 update_cache:
+#ifdef PIXMAN_VERIF
+    {
+	pixman_implementation_t *p;
+	int depth = 0;
+
+	for (p = toplevel; p && p != *out_imp; p = p->fallback)
+	    depth++;
+
+	pixman_verif_last_lookup.depth = depth;
+	pixman_verif_last_lookup.func = (void *) *out_func;
+	pixman_verif_last_lookup.count++;
+    }
+#endif
     if (i)
     {
 	while (i--)
